@@ -368,7 +368,9 @@ def arc_include(thetas, reference_theta):
     """
 
     s_thetas = np.copy(thetas)
-    s_theta1 = thetas[..., 1] - thetas[..., 0]
+    # asarray: for a single pair of angles the difference is a numpy
+    # scalar, which does not support the masked update below
+    s_theta1 = np.asarray(thetas[..., 1] - thetas[..., 0])
     s_reference = np.expand_dims(reference_theta - thetas[..., 0],
                                  axis=-1)
 
